@@ -557,7 +557,7 @@ def analyze(ctx, want):
     # =================================================================== advance_to (kinds)
     at = F.fn(r"FindMatchesImpl::<..>::advance_to$")
     ctx.analysed_fn(at)
-    ex, paths = run_fn(at, F, Model())
+    ex, paths = run_fn(at, F, Model(), inline=r"FindMatchesImpl::<..>::offset$")   # the accessor is last_position + offset
     env = {"abs_params": ("position",)}
     n_cmp = 0
     seen_cmp = set()
